@@ -137,6 +137,16 @@ func genC07(o *cw) {
 			o.c("evalall", cds[2], "/", "-", "count(/r/*["+l+" "+op+" "+o.r.Pick([]string{"7", "3", "10"})+"])", "", "set-num-pred")
 		}
 	}
+	// number against a string that Go's strconv accepts but the XPath number syntax does not
+	// (exponent, sign, Inf/NaN spellings, hex, underscores), all six operators, both orientations
+	for _, op := range cmpOps {
+		for _, n := range []string{"1000", "5", "1", "0", "16", "(0 - 1)", "(1 div 0)"} {
+			for _, sv := range []string{"1e3", "+5", "Infinity", "-Infinity", "inf", "NaN", "1E3", "0x10", "1_000", " 5 ", "5.", ".5", "5e0", "+Inf", "1e", "--1", "1 000"} {
+				o.c("evalall", ds[0], "/", "-", n+" "+op+" '"+sv+"'", "", "num-gofloat-str")
+				o.c("evalall", ds[0], "/", "-", "'"+sv+"' "+op+" "+n, "", "gofloat-str-num")
+			}
+		}
+	}
 	rounds := 12 * o.tier
 	for k := 0; k < rounds; k++ {
 		for _, op := range cmpOps {
@@ -476,7 +486,8 @@ func nsDocs(o *cw) [][2]*dref {
 // C14: name tests, namespaces, name functions
 func genC14(o *cw) {
 	pairs := nsDocs(o)
-	maps := []string{"-", "=", "=b:ns1", "=x:ns1", "=b:ns2", "=y:ns1", "=b:ns1,x:ns2,c:ns3", "=p:u1,q:u2", "=p:u2,x:u1", "=q:u3"}
+	// (a prefix bound to the EMPTY namespace URI is still namespace-qualified)
+	maps := []string{"-", "=", "=b:ns1", "=x:ns1", "=b:ns2", "=y:ns1", "=b:ns1,x:ns2,c:ns3", "=p:u1,q:u2", "=p:u2,x:u1", "=q:u3", "=b:", "=p:", "=x:,p:u1,b:"}
 	names := []string{"book", "b:book", "c:book", "x:book", "d:book", "y:book", "*", "b:*", "x:*", "other", "b:other", "a", "b", "p:a", "q:a", "x:b", "p:b", "p:*"}
 	attrs := []string{"id", "b:id", "x:id", "*", "x", "p:x", "q:y", "x:x"}
 	rot := 0
@@ -524,6 +535,12 @@ func genC14(o *cw) {
 				o.c("evalall", d, "/", "-", f+"()", "", f+"()")
 				for _, arg := range []string{"*", "@*", "//b:book", "//x:book", "nonexist", "//@*", "//text()", "..", "//*[2]", "*/*"} {
 					o.c("evalall", d, "/", "-", f+"("+arg+")", "", f+"(set)")
+				}
+				// a self step with a real name / kind test as argument: empty on the nodes that fail the test
+				for _, arg := range []string{"self::b:book", "self::book", "self::c:book", "self::text()", "self::p:a", "self::a", "self::*", "self::node()", "self::q:*", "self::comment()"} {
+					o.c("evalall", d, "/", "-", f+"("+arg+")", "", f+"(self-test)")
+					o.c("sel", d, "/", "-", "//*["+f+"("+arg+") = "+f+"()]", "", f+"(self-test)-pred")
+					o.c("sel", d, "/", "=b:ns1,p:u1,q:u2,c:ns2", "//node()["+f+"("+arg+") != '']", "", f+"(self-test)-pred")
 				}
 				o.c("sel", d, "/", "-", "//*["+f+"()='book']", "", f+"-pred")
 				o.c("sel", d, "/", "-", "//*["+f+"()='ns1']", "", f+"-pred")
@@ -672,7 +689,16 @@ func damages(s string) [][2]string {
 		}
 		switch {
 		case c == '/':
-			if strings.TrimSpace(pre) != "/" {
+			// a single slash that STARTS a path (nothing, an operator, a bracket, a comma before it)
+			// is the valid expression "/" when the text ends there
+			before := strings.TrimRight(pre[:len(pre)-1], " ")
+			startsPath := before == "" || strings.ContainsRune("|([,=<>+-*!", rune(before[len(before)-1]))
+			for _, w := range []string{" and", " or", " div", " mod"} {
+				if strings.HasSuffix(before, w) {
+					startsPath = true
+				}
+			}
+			if !startsPath {
 				note("cut-after-slash", pre)
 			}
 		case c == '[':
@@ -786,7 +812,27 @@ var c17Corpus = []string{
 	"(//a | //b)[1]", "(//a)[@x][2]", "(//a)[position() < 3]/b", "count((//a)[@x = 'v']) > 0", "string((//a/b)[last()])",
 	"//r[count((a | b)[c]) = 2]", "concat(name((//a)[1]), '-', 'z')", "(a)[1][2]", "(a/b)[c][d]/e[f]", "id((a)[1])",
 	"not((a)[b = (3)])", "a[b[c[(d)[1]]]]", "string-length(normalize-space(string((a)[1])))", "(a)[(b)[(c)[1]]]",
+	"/a/b", "/a/b/c[1]/d", "/a/b//c", "@a | /r/s/t", "a[/b/c]", "count(/a/b)", "/html/body/div[1]/p", "concat(/a/b, /c/d)", "a[/b/c = /d/e]", "(/a/b)[1]", "/a/@b",
 	"a | (b)[1]", "(a | b | c)[last()]", "count((a)[1] | (b)[2])", "translate(('a'), ('b'), ('c'))", "a[. = (1) or . = ('x')]",
+}
+
+// dropSteps: for every slash followed by a name-like step token, the text without that token
+func dropSteps(s string) []string {
+	var out []string
+	isTok := func(c byte) bool {
+		return c == '-' || c == '_' || c == '.' || c == '*' || c == '@' || c == ':' || (c >= '0' && c <= '9') || (c >= 'a' && c <= 'z') || (c >= 'A' && c <= 'Z')
+	}
+	for i := 0; i+1 < len(s); i++ {
+		if s[i] != '/' || inQuote(s[:i]) || !isTok(s[i+1]) {
+			continue
+		}
+		j := i + 1
+		for j < len(s) && isTok(s[j]) {
+			j++
+		}
+		out = append(out, s[:i+1]+s[j:])
+	}
+	return out
 }
 
 func genC17(o *cw) {
@@ -798,6 +844,10 @@ func genC17(o *cw) {
 		o.c("compile", nil, "/", "-", s, "", "valid-corpus", "expect=ok")
 		for _, d := range damages(s) {
 			o.c("compile", nil, "/", "-", d[1], "", d[0], "expect=err")
+		}
+		// the step after a slash removed, the rest kept (a/b) -> (a/) : verdict against the model's
+		for _, t := range dropSteps(s) {
+			o.c("compile", nil, "/", "-", t, "", "drop-step-after-slash")
 		}
 	}
 	// every function name x 0..6 arguments (and a misspelt name): the verdict of Compile against the model's
@@ -822,6 +872,9 @@ func genC17(o *cw) {
 		o.c("compile", nil, "/", "-", s, "", "valid", "expect=ok")
 		for _, d := range damages(s) {
 			o.c("compile", nil, "/", "-", d[1], "", d[0], "expect=err")
+		}
+		for _, t := range dropSteps(s) {
+			o.c("compile", nil, "/", "-", t, "", "drop-step-after-slash")
 		}
 	}
 }
